@@ -233,6 +233,7 @@ def run(ctx):
                               {"kind": "ops", "calls": [c[0] for c in small], "ops": [c[1] for c in small], "observed": o2, "expected": "check_trace = [] (model outputs)"})
     ctx.extra["input_distribution"] = kinds
     content_bindings(ctx, wexe)
+    twin_differential(ctx, wexe)
     ctx.trusted += ["translator/c13_fwd.py (token-level transliteration of the wrappers into shape records; anything unrecognised becomes ROther/FROther and fails wrapper_ok)",
                     "the documented-behaviour table doc_bad / shifted in coq/Wrapper/Fwd.v was transcribed by hand from IPhreeqc.h and IPhreeqc_interface.F90",
                     "model evaluated inside Coq by vm_compute (no extraction for this property)"]
@@ -317,6 +318,104 @@ def content_bindings(ctx, wexe):
             if not (c == f and (m == c or (m == -3 and c == -3))):
                 ctx.violation("content:nth", "GetNthSelectedOutputUserNumber(%d): C %r, C++ %r, F(n+1) %r" % (n, c, m, f), {"kind": "input", "input_text": text})
                 return
+
+
+SHIFTED = {"GetComponent", "GetDumpStringLine", "GetErrorStringLine", "GetLogStringLine", "GetOutputStringLine", "GetSelectedOutputStringLine", "GetWarningStringLine", "GetNthSelectedOutputUserNumber"}
+STRING_GETTERS_N = ["GetComponent", "GetDumpStringLine", "GetErrorStringLine", "GetLogStringLine", "GetOutputStringLine", "GetSelectedOutputStringLine", "GetWarningStringLine"]
+INT_GETTERS = ["GetComponentCount", "GetCurrentSelectedOutputUserNumber", "GetDumpFileOn", "GetDumpStringLineCount", "GetDumpStringOn", "GetErrorFileOn", "GetErrorOn", "GetErrorStringLineCount",
+               "GetErrorStringOn", "GetLogFileOn", "GetLogStringLineCount", "GetLogStringOn", "GetOutputFileOn", "GetOutputStringLineCount", "GetOutputStringOn", "GetSelectedOutputColumnCount",
+               "GetSelectedOutputCount", "GetSelectedOutputFileOn", "GetSelectedOutputStringLineCount", "GetSelectedOutputStringOn", "GetWarningStringLineCount"]
+SWITCH_SETTERS = ["SetDumpFileOn", "SetDumpStringOn", "SetErrorFileOn", "SetErrorOn", "SetErrorStringOn", "SetLogFileOn", "SetLogStringOn", "SetOutputFileOn", "SetOutputStringOn",
+                  "SetSelectedOutputFileOn", "SetSelectedOutputStringOn"]
+NAME_SETTERS = ["SetDumpFileName", "SetErrorFileName", "SetLogFileName", "SetOutputFileName", "SetSelectedOutputFileName"]
+
+
+def twin_differential(ctx, wexe):
+    """the same random call history through the C functions, the C++ methods and the Fortran-binding functions on three instances
+    (separate processes, all with id 0): every returned value agrees up to the documented conversions and the final observation of
+    the three instances is identical."""
+    import gen_inputs
+    for rep in range(ctx.n(10, 150)):
+        text, info = gen_inputs.multi_sim_input(ctx.rng, user_numbers=[1, 2], nsims=ctx.rng.randint(1, 2))
+        hist = [("LoadDatabase", os.path.join(vlib.DB, "phreeqc.dat"))]
+        for _ in range(ctx.rng.randint(6, 30)):
+            k = ctx.rng.random()
+            if k < 0.2:
+                hist.append((ctx.rng.choice(SWITCH_SETTERS), ctx.rng.choice([0, 1, 1, 7])))
+            elif k < 0.3:
+                hist.append((ctx.rng.choice(NAME_SETTERS), ctx.rng.choice(["t_a.txt", "t_b.txt", ""])))
+            elif k < 0.4:
+                hist.append(("SetCurrentSelectedOutputUserNumber", ctx.rng.choice([1, 2, 3, -1])))
+            elif k < 0.5:
+                for ln in text.split("\n")[:-1]:
+                    hist.append(("AccumulateLine", ln))
+                hist.append(("RunAccumulated",))
+            elif k < 0.6:
+                hist.append(("RunString", text if ctx.rng.random() < 0.8 else "SOLUTION 1\n Na 1\n Clx 2 charge\nEND\n"))
+            elif k < 0.65:
+                hist.append(("RunFile", "twin.pqi"))
+            elif k < 0.7:
+                hist.append(("ClearAccumulatedLines",))
+            elif k < 0.78:
+                hist.append((ctx.rng.choice(["AddError", "AddWarning"]), ctx.rng.choice(["msg one\n", "x", ""])))
+            elif k < 0.9:
+                hist.append((ctx.rng.choice(INT_GETTERS),))
+            else:
+                hist.append((ctx.rng.choice(STRING_GETTERS_N), ctx.rng.choice([-1, 0, 1, 2, 5])))
+        cap = 60
+        outs = {}
+        for b in ("c", "m", "f"):
+            ops = [["spy"]]
+            for h in hist:
+                name, args = h[0], list(h[1:])
+                if b == "f":
+                    fname = name + "F"
+                    if name in SHIFTED:
+                        args = [args[0] + 1]
+                    if name in STRING_GETTERS_N:
+                        args = args + [cap]
+                    ops.append(["f", fname, 0] + args)
+                else:
+                    ops.append([b, name, 0] + args)
+            ops.append(["obs", 0, "lines"])
+            with vlib.scratch("c13t") as d:
+                open(os.path.join(d, "twin.pqi"), "w").write(text)
+                res, rc, err = wrap.run_script(wexe, ops, d, timeout=180)
+            outs[b] = (res, rc, err)
+        ctx.case("twin:" + vlib.key_of(hist), sample={"history": [h[0] for h in hist][:20]} if rep == 0 else None)
+        if any(o[1] != 0 or any(r is None for r in o[0]) for o in outs.values()):
+            ctx.violation("twin:driver:" + vlib.key_of(hist), "driver died in a twin history: %s" % [o[2][-150:] for o in outs.values()], {"kind": "history", "history": hist})
+            continue
+        rep_obj = {"kind": "history", "history": [list(h) for h in hist], "input_text": text}
+        for i, h in enumerate(hist):
+            c, m, f = outs["c"][0][i + 1], outs["m"][0][i + 1], outs["f"][0][i + 1]
+            if "unknown" in c or "unknown" in m or "unknown" in f:
+                continue
+            name = h[0]
+            if name in SWITCH_SETTERS or name in NAME_SETTERS or name in ("ClearAccumulatedLines",):
+                continue
+            if name in STRING_GETTERS_N:
+                if "econds" in c["r"] or "econds" in str(m["r"]) or (c["r"] and set(c["r"]) == {"-"}):
+                    continue            # elapsed-time banner and its dashed frame
+                want = (c["r"][:cap] + " " * max(0, cap - len(c["r"])))[:cap]
+                if m["r"] != c["r"] or f["r"]["buf"][:cap] != want or f["r"]["len"] != len(c["r"]):
+                    ctx.violation("twin:" + name, "%s%r after the same history: C %r, C++ %r, F %r" % (name, h[1:], c["r"][:60], str(m["r"])[:60], f["r"]), rep_obj)
+                    break
+            else:
+                cv, mv, fv = c["r"], m["r"], f["r"]
+                if name == "AccumulateLine" or name == "SetCurrentSelectedOutputUserNumber":
+                    mv = cv if mv in (0, None) or mv == cv else mv          # VRESULT -> IPQ_RESULT is the identity on the values
+                if isinstance(mv, bool):
+                    mv = int(mv)
+                if not (cv == fv and (mv == cv or mv is None)):
+                    ctx.violation("twin:" + name, "%s%r after the same history returns C %r, C++ %r, F %r" % (name, h[1:], cv, mv, fv), rep_obj)
+                    break
+        else:
+            import props.c07 as c07
+            oc, om, of = (c07.norm(outs[b][0][-1]) for b in ("c", "m", "f"))      # elapsed-time banner masked
+            if json.dumps(oc, sort_keys=True) != json.dumps(om, sort_keys=True) or json.dumps(oc, sort_keys=True) != json.dumps(of, sort_keys=True):
+                d = c07.diff_obs(oc, om) or c07.diff_obs(oc, of)
+                ctx.violation("twin:state:" + vlib.key_of(hist), "the same history through C, C++ and F leaves different instance states: %s" % d, rep_obj)
 
 
 def gen_fixed():
